@@ -210,6 +210,22 @@ def build_world(spec: dict) -> World:
             task.finish(US(prev["finish"]))
             continue
         raise ValueError(st)
+    # work profiles whose load is in progress on a worker (holds resources; the virtual copy must hold them once)
+    w.loading = [[] for _ in pools]
+    w._loading_keep = []
+    for k_, lp in enumerate(spec.get("loading", [])):
+        worker, pool, pi, wi = w.workers[lp["w"]]
+        so = R["ExecutionStrategy"](
+            resources=Resources(resource_vector={Resource(name=n, _id="any"): q for n, q in lp["req"]}), batch_size=1, runtime=US(lp["runtime"]))
+        prof = R["WorkProfile"](name=f"loading_profile_{k_}", loading_strategies=R["ExecutionStrategies"]([so]))
+        w.sid[id(so)] = sid
+        w.strat_spec[sid] = None
+        sid += 1
+        w._loading_keep.append((prof, so))
+        if not worker.can_accomodate_strategy(so):
+            continue   # does not fit next to the running tasks: skipped (the generator does not know the occupancy)
+        worker.load_profile(prof, so)
+        w.loading[pi].append({"w": wi, "p": 1000 + k_, "s": strat_json(w, so)})
     kw = {}
     if spec["policy"] != "LSF":
         kw["enforce_deadlines"] = bool(spec["enforce"])
@@ -251,7 +267,7 @@ def snapshot(w: World):
                 [(r.name, r.id, q) for r, q in res._Resources__total_resources.items()],
                 [(n, res.get_available_quantity(Resource(name=n, _id="any"))) for n in names],
                 [(n, res.get_allocated_quantity(Resource(name=n, _id="any"))) for n in names],
-                [(c.unique_name, [(x.name, x.id, q) for x, q in lst]) for c, lst in res._current_allocations.items()],
+                [(getattr(c, "unique_name", None) or getattr(c, "name", "?"), [(x.name, x.id, q) for x, q in lst]) for c, lst in res._current_allocations.items()],
                 [(t.unique_name, w.sid.get(id(s), -1)) for t, s in worker._placed_tasks.items()],
                 sorted(t.unique_name for t in worker.get_placed_tasks()),
                 worker.is_full(),
@@ -386,7 +402,7 @@ def driver_case(w: World, rec: dict) -> dict:
                 vec.append([n, k, q])
                 k += 1
             vecs.append(vec)
-        pools.append({"workers": vecs, "running": w.running[pi]})
+        pools.append({"workers": vecs, "running": w.running[pi], "profiles": w.loading[pi]})
     return {
         "suite": SUITE,
         "policy": w.spec["policy"],
@@ -834,6 +850,13 @@ def gen_world(rng, kind: str, policy: str | None = None, widened: bool = False) 
         world["round2"] = True
         if r2.random() < 0.5:
             world["round2_grow"] = {"pick": r2.randrange(8), "extra": r2.randint(1, 6)}
+    if r2.random() < 0.25:
+        # one or two work profiles are being loaded on workers when the policy runs (they hold resources)
+        world["loading"] = []
+        for _ in range(r2.randint(1, 2)):
+            wi_ = r2.randrange(len(order))
+            tys = [n_ for n_, _q in order[wi_]["res"]]
+            world["loading"].append({"w": wi_, "runtime": r2.randint(1, 5), "req": [[r2.choice(tys), r2.randint(1, 2)]]})
     if kind == "mix" and r2.random() < 0.35:
         # some strategies ask for one specific resource instance (by id) instead of any instance of the type; never
         # both forms of one type inside one strategy (that combination is the known finding C05-OV)
